@@ -87,7 +87,7 @@ def workload(tier, seed, scale=1.0):
         shape = (ndig(v), (v >> (64 * (ndig(v) - 1))) >> 32 == 0 if v else None)
         for width in (32, 64):
             for d in range(0, depth + 1):
-                for seq in itertools.product(alphabet, repeat=d):
+                for seq in itertools.product(alphabet if d > 4 else alphabet + ('k0', 'k1'), repeat=d):
                     if d < depth and d > 2 and scale < 1.0:
                         continue
                     if scale < 1.0 and rnd.random() > scale:
@@ -96,19 +96,20 @@ def workload(tier, seed, scale=1.0):
                     for o in seq:
                         ops += [o, 'l', 'h']
                     # terminal observation: alternate last / count, plus fused behaviour (extra next after None)
-                    term = ('L', 'c')[(len(seq) + sum(map(len, seq))) % 2]
+                    terms = ('L', 'c', 'F', 'R', 'C', 'V', 'S', 'E')
+                    term = terms[(len(seq) + sum(map(len, seq)) + 3 * sum(map(ord, ''.join(seq)))) % len(terms)]
                     full = ['l', 'h'] + ops + [term]
                     kind = 'U' if (d + width) % 3 else 'I'
                     cmds.append(cmd_iter(width, v if kind == 'U' else -v if d % 2 else v, kind, full, cell=('iter', width, shape, seq, term)))
                     if d == depth:
-                        other = 'c' if term == 'L' else 'L'
+                        other = terms[(terms.index(term) + 1 + len(seq)) % len(terms)]
                         cmds.append(cmd_iter(width, v, 'U', ['l'] + ops + ['n', 'b', 'l', other], cell=('iter', width, shape, seq, 'fused+' + other)))
     # (next, next_back)-only sequences to greater depth on longer values
     for v in (rand_digits(rnd, 7, 0), rand_digits(rnd, 6, 0) >> 40):
         for width in (32, 64):
             for _ in range(200 if quick else 3000):
-                seq = [rnd.choice(('n', 'b', 'n', 'b', 't0', 't1', 't3', 'l', 'h')) for _ in range(rnd.randrange(1, 24))]
-                cmds.append(cmd_iter(width, v, 'U', seq + [rnd.choice(('L', 'c'))], cell=('iter-rand', width, len(seq))))
+                seq = [rnd.choice(('n', 'b', 'n', 'b', 't0', 't1', 't3', 'k0', 'k2', 'l', 'h')) for _ in range(rnd.randrange(1, 24))]
+                cmds.append(cmd_iter(width, v, 'U', seq + [rnd.choice(('L', 'c', 'F', 'R', 'C', 'V', 'S', 'E'))], cell=('iter-rand', width, len(seq))))
     return cmds
 
 
